@@ -53,7 +53,7 @@ ASSUMPTIONS = [
     'an atomic operand; divisors read a parameter); ArithmeticAtomicPT operands have equal durations',
     'expression language: + - * over parameters and dyadic constants; comparisons < <= > >= ==',
     'AtomicMultiChannelPT without explicit duration; ParallelChannelPT never inside AtomicMultiChannelPT; '
-    'ParallelChannelPT values are not time dependent',
+    'ParallelChannelPT values are either all plain or all time dependent (mixed = two nested templates)',
 ]
 
 # ---------------------------------------------------------------------------------------------------------------------
@@ -435,7 +435,10 @@ class Gen:
             return self.arith(avail, self.atomic_sub(avail, envs, ch, depth + 1), (ch,))
         if c < 0.44:
             # ParallelChannelPT around an atomic template is atomic (it overwrites the part's own channel)
-            return {'k': 'par', 'inner': self.atomic_sub(avail, envs, ch, depth + 1), 'ow': [[ch, self.expr(sorted(avail))]]}
+            n = {'k': 'par', 'inner': self.atomic_sub(avail, envs, ch, depth + 1), 'ow': [[ch, self.expr(sorted(avail))]]}
+            if r.random() < 0.4:
+                n['td'] = True
+            return n
         return {'k': 'aat', 'lhs': self.atomic_sub(avail, envs, ch, depth + 1),
                 'rhs': self.atomic_sub(avail, envs, ch, depth + 1), 'op': r.choice('+-'),
                 'ms': self.windows(sorted(avail))}
@@ -495,6 +498,10 @@ class Gen:
             inner_chs = chs if (len(chs) == 1 or r.random() < 0.5) else (chs[0],)
             n = {'k': 'par', 'inner': self.tree(depth + 1, avail, envs, inner_chs),
                  'ow': [[chs[-1], self.expr(names)]] + ([[chs[0], self.expr(names)]] if len(chs) == 2 and r.random() < 0.2 else [])}
+            if py_is_atomic(n['inner']) and r.random() < 0.5:
+                n['td'] = True      # time dependent values (only next to an atomic template)
+                if r.random() < 0.5:
+                    n['ow'][0][1] = self.fexpr(names)
         elif k == 'seq':
             subs = [self.tree(depth + 1, avail, envs, chs) for _ in range(r.choice([1, 2, 2, 3]))]
             if r.random() < 0.12:
@@ -760,8 +767,9 @@ def zero_candidates(tree):
             yield from prods(e[1])
             yield from prods(e[2])
     for n in nodes(tree):
-        if n['k'] == 'func':
-            for x, y in prods(n['reads'][0]):
+        exprs = [n['reads'][0]] if n['k'] == 'func' else [e for _, e in par_ow(n)] if (n['k'] == 'par' and n.get('td')) else []
+        for e in exprs:
+            for x, y in prods(e):
                 if x in TOP and y in TOP:
                     out.append((x, y))
     return out
@@ -1592,12 +1600,53 @@ def directed_par_atomic_cases(full):
     return cases
 
 
+def directed_par_td_cases(full):
+    """D10 (round 4): ParallelChannelPT with time dependent values e*t next to an atomic template: substituted
+    symbolically like a FunctionPT expression (needed iff the channel is kept; a missing name is an error unless it
+    cancels = the known finding); an extra parameter called t never matters -- in particular not when the time
+    dependent channel is dropped and an unneeded mapped name is missing (defect repaired in /repo 1b3543b)"""
+    cases = []
+    ref = {'p0': F(1), 'p1': F(2), 'p2': F(3)}
+    a = lambda: _const(V('p0'), 'A')
+    f = lambda: {'k': 'func', 'ch': ['A'], 'reads': [V('p0')], 'dur': C(2), 'cs': [{'op': '<', 'l': V('p0'), 'r': C(3)}], 'ms': []}
+    td = lambda inner, ow: {'k': 'par', 'inner': inner, 'ow': ow, 'td': True}
+    trees = [
+        ('addB', td(a(), [['B', V('p1')]])),
+        ('ownA', td(f(), [['A', ['+', V('p1'), V('p0')]]])),
+        ('both', td(a(), [['A', V('p1')], ['B', V('p2')]])),
+        ('mixed', {'k': 'par', 'inner': td(a(), [['B', V('p1')]]), 'ow': [['A', V('p2')]]}),
+        ('mapped', {'k': 'map', 'inner': td(_const(V('q1'), 'A'), [['B', V('q2')]]), 'm': {'q1': V('p0'), 'q2': V('p1')}, 'cs': []}),
+        ('mapped_t', {'k': 'map', 'inner': td(_const(V('q1'), 'A'), [['B', V('q2')]]), 'cs': [],
+                      'm': {'q1': V('p0'), 'q2': ['+', V('p1'), V('t')]}}),          # a declared parameter called t
+        ('in_amc', {'k': 'amc', 'subs': [td(f(), [['A', V('p1')]]), _const(V('p2'), 'B')], 'cs': [], 'ms': []}),
+        ('in_loop', {'k': 'for', 'idx': 'i1', 'a': C(0), 'b': V('p2'), 'st': C(1), 'cs': [], 'ms': [],
+                     'body': td(_const(V('i1'), 'A'), [['B', ['+', V('p1'), V('i1')]]])}),
+        ('product', td(a(), [['B', ['*', V('p1'), V('p2')]]])),
+        ('seq', _seq(td(a(), [['B', V('p1')]]), {'k': 'const', 'ch': ['A', 'B'], 'reads': [V('p2'), C(1)], 'dur': C(2), 'cs': [], 'ms': []})),
+        ('swap', {'k': 'map', 'inner': td(a(), [['B', V('p1')]]), 'm': {}, 'cs': [], 'ren': {'A': 'B', 'B': 'A'}}),
+    ]
+    for name, tree in trees:
+        if not (sympy_ok(tree) and constructible(tree)):
+            continue
+        for drop in ([], ['A'], ['B'], ['A', 'B']):
+            dtag = ''.join(drop) or 'none'
+            cases.append(d_case(tree, ref, 'D10:%s:%s:exact' % (name, dtag), drop=drop))
+            for rm in range(3):
+                if full or drop in ([], ['B']) or rm == 1:
+                    cases.append(d_case(tree, ref, 'D10:%s:%s:removed%d' % (name, dtag, rm), kind='removed', rm=rm, drop=drop))
+        if name == 'product':       # a supplied 0 hides the missing factor (known finding, classified by the Coq guard)
+            c = d_case(tree, dict(ref, p1=F(0)), 'D10:product:zero', kind='zero')
+            c['zeros'], c['rmn'] = ['p1'], 'p2'
+            cases.append(c)
+    return cases
+
+
 def directed_cases(tier):
     full = tier == 'thorough'
     return (directed_mapping_cases(full) + directed_loop_cases() + directed_extra_cases()
             + directed_channel_cases() + directed_frame_cases(full) + directed_history_cases(full)
             + directed_hash_loop_cases(full) + directed_alias_cases(full) + directed_atom_cases()
-            + directed_par_atomic_cases(full))
+            + directed_par_atomic_cases(full) + directed_par_td_cases(full))
 
 
 def gen_cases(rng, tier, ctx, every_constraint=False):
@@ -1702,7 +1751,9 @@ def _build_pt(n, tsw, memo):
     if k == 'amc':
         return AtomicMultiChannelPT(*[sub(q) for q in n['subs']], parameter_constraints=cs, measurements=ms)
     if k == 'par':
-        return ParallelChannelPT(build_pt_(n['inner']), {c: estr(e) for c, e in par_ow(n)})
+        # 'td': every value is time dependent (e*t; t is the time variable, not a parameter; needs an atomic template)
+        vstr = (lambda e: '%s*t' % estr(e)) if n.get('td') else estr
+        return ParallelChannelPT(build_pt_(n['inner']), {c: vstr(e) for c, e in par_ow(n)})
     if k == 'ari':
         sstr = (lambda e: '%s*t' % estr(e)) if n.get('td') else estr
         scalar = sstr(n['sa'][0]) if n['sa'] else {c: sstr(e) for c, e in n['sc']}
@@ -1915,7 +1966,7 @@ def g_pt(n, nm):
                                   g_cs(n['cs'], nm), g_ms(n['ms'], nm))
     g_ce = lambda ce: '(%s, %s)' % (nm('ch:' + ce[0]), g_expr(ce[1], nm))
     if k == 'par':
-        return '(Par %s %s)' % (g_pt(n['inner'], nm), glist(g_ce, par_ow(n)))
+        return '(%s %s %s)' % ('ParT' if n.get('td') else 'Par', g_pt(n['inner'], nm), glist(g_ce, par_ow(n)))
     if k == 'ari':
         return '(Ari %s %s %s)' % (g_pt(n['inner'], nm), glist(lambda e: g_expr(e, nm), n['sa']), glist(g_ce, n['sc']))
     if k == 'aat':
@@ -1985,6 +2036,8 @@ def histogram_keys(case, obs):
             keys.append('nested_map:' + ('with_cs' if n['inner']['cs'] else 'merged'))
         if n['k'] == 'ari':
             keys.append('ari:' + ('time_dependent' if n.get('td') else 'div' if n['op'] == '/' else 'plain'))
+        if n['k'] == 'par' and n.get('td'):
+            keys.append('par:time_dependent')
         if n['k'] == 'map' and any(key in evars(e) for key, e in n['m'].items()):
             keys.append('map:self_referential')
         if n['k'] == 'map' and n.get('ren'):
